@@ -128,7 +128,7 @@ func mkSeqPathScenario(raw json.RawMessage) (explore.Body, error) {
 
 func runC03(ctx *core.Ctx, pool *par.Pool) {
 	cfgs := []pagedrv.Cfg{pagedrv.CfgA, pagedrv.CfgC}
-	depth, seedDepth := 6, 5
+	depth, seedDepth := 7, 6
 	if !ctx.Quick() {
 		cfgs = []pagedrv.Cfg{pagedrv.CfgA, pagedrv.CfgB, pagedrv.CfgC, pagedrv.CfgD}
 		depth, seedDepth = 9, 8
